@@ -7,6 +7,7 @@ import (
 	"regexp"
 	"strings"
 	"unicode"
+	"unicode/utf8"
 )
 
 // tokenType defines a unique type of token
@@ -303,20 +304,32 @@ func lexExpression(l *lexer) stateFn {
 // which require more than just a check of the next character.
 func (l *lexer) tryLexOperator() bool {
 	op := operatorMatcher.FindString(l.input[l.pos:])
+	// An operator that ends in a letter (such as "in" or "not in") has to end
+	// at a word boundary: "include", "is_currently_on" or "not index" do not
+	// contain one. When a multi-word operator fails the test, its first
+	// word(s) may still be an operator ("not index" begins with "not").
+	for op != "" && isName(op[len(op)-1:]) {
+		rest := l.input[l.pos+len(op):]
+		if r, _ := utf8.DecodeRuneInString(rest); rest == "" || !isName(string(r)) {
+			break
+		}
+		i := strings.LastIndex(op, " ")
+		if i < 0 {
+			return false
+		}
+		op = op[:i]
+		_, binary := binaryOperators[op]
+		_, unary := unaryOperators[op]
+		if !binary && !unary {
+			return false
+		}
+	}
 	if op == "" {
 		return false
 	} else if op == "%" {
 		// Ensure this is not a tag close token "%}".
 		// Go's regexp engine does not support negative lookahead.
 		if strings.HasPrefix(l.input[l.pos+1:], "}") {
-			return false
-		}
-	} else if isAlpha(op) {
-		// If operator is alphabetic (such as "in" or "is"),
-		// we avoid matching "include" or functions like "is_currently_on"
-		// For such operators to be valid, they need to have a space after.
-		lenOp := len(op)
-		if (l.pos+lenOp+1) <= len(l.input) && l.input[l.pos+lenOp:l.pos+lenOp+1] != " " {
 			return false
 		}
 	} else if op == delimTrimWhitespace {
